@@ -177,6 +177,12 @@ def aCall (c : WCtx) (f : Name) (args : List (V AO)) (_kw : List (Name × V AO))
     | [.bytes _] => (.error (.exc xTypeError 0), st)
     | [.none] => (.error (.exc xTypeError 0), st)
     | _ => (raiseX xUnsupported, st)
+  else if f = 0x6366676b6579326e616d65 then          -- cfgkey2name(key)
+    match args with
+    | [.int k] =>
+      if 0 ≤ k then (encR (fun (nt : Name × Ty) => V.tuple [.str nt.1, .host (.ty nt.2)]) (cfgkey2name c.ctx k.toNat), st)
+      else (raiseX xUnsupported, st)
+    | _ => (raiseX xUnsupported, st)
   else if f = 0x4f766572666c6f774572726f72 then      -- OverflowError(...)
     (.ok (.exc xOverflowError 0), st)
   else (raiseX xUnsupported, st)
@@ -297,8 +303,10 @@ def renderPrefix3 (base : Name) (i : Nat) : Name :=
   else if nameLen base = 1 then base * 65536 + 0x5f00 + (48 + d.1)
   else 0x5f0000 + (48 + d.1) * 256 + (48 + d.2)
 
-def aIndex (o : AO) (i : V AO) (_st : ASt) : X AO (V AO) :=
+def aIndex (o : AO) (i : V AO) (st : ASt) : X AO (V AO) :=
   match o, i with
+  -- `kwargs["payload"]`: what `_do_attributes` stored in `_payload` from the very same keywords
+  | .kwargs, .str 0x7061796c6f6164 => .ok (.bytes st.payload)
   | .dict items, .str k => (match itemAt items k with | some it => .ok (defV it) | none => .error (.exc xKeyError 0))
   | .scaled t _, .int 0 => .ok (.host (.ty t))
   | .scaled _ sc, .int 1 => .ok (.host (.scale sc))
@@ -347,8 +355,7 @@ def walkHost (c : WCtx) (cls id : Bytes) (mode : Nat) : Host AO ASt where
 
 `recHost … f`: like `walkHost`, but the walker methods called on `self` are the *translated* methods again, interpreted under
 `recHost … (f - 1)` — `f` bounds the depth of method calls (two per nesting level of groups, two more for a bitfield's flags).
-`_set_attribute_bitfield` / `_set_attribute_bits` are interpreted too; `_set_attribute_cfgval` stays the model's `wCfgVal`
-(its own tie is `Proofs/CodeCfgVal.lean`, over a host of its own). -/
+`_set_attribute_bitfield` / `_set_attribute_bits` and `_set_attribute_cfgval` are interpreted too. -/
 
 def mSetAttr : Name := 0x5f7365745f617474726962757465
 def mSingle : Name := 0x5f7365745f6174747269627574655f73696e676c65
@@ -364,7 +371,7 @@ def recMcall (c : WCtx) (cls id : Bytes) (mode : Nat) (F : Nat) :
     match obj with
     | .host .self =>
       (match f with
-       | 0 => if m = mSetAttr ∨ m = mSingle ∨ m = mGroup ∨ m = mCalc ∨ m = mBitfield ∨ m = mBits then (raiseX xFuel, st) else aMcall c obj m args kw st
+       | 0 => if m = mSetAttr ∨ m = mSingle ∨ m = mGroup ∨ m = mCalc ∨ m = mBitfield ∨ m = mBits ∨ m = mCfgval then (raiseX xFuel, st) else aMcall c obj m args kw st
        | f'+1 =>
          let H : Host AO ASt := { walkHost c cls id mode with mcall := recMcall c cls id mode F f' }
          if m = mSetAttr then runFn H F fn_UBXMessage__set_attribute (.host .self :: args) st
@@ -373,6 +380,8 @@ def recMcall (c : WCtx) (cls id : Bytes) (mode : Nat) (F : Nat) :
          else if m = mCalc then runFn H F fn_UBXMessage__calc_num_repeats (.host .self :: args) st
          else if m = mBitfield then runFn H F fn_UBXMessage__set_attribute_bitfield (.host .self :: args) st
          else if m = mBits then runFn H F fn_UBXMessage__set_attribute_bits (.host .self :: args) st
+         -- the key/value parser has a `while` loop: its pass budget is taken from the payload it will walk
+         else if m = mCfgval then runFn H (max F (5 * (st.payload.length + 1) + 1)) fn_UBXMessage__set_attribute_cfgval (.host .self :: args) st
          else aMcall c obj m args kw st)
     | _ => aMcall c obj m args kw st
 
@@ -392,7 +401,5 @@ structure WalkLike (c : WCtx) (cls id : Bytes) (mode : Nat) (H : Host AO ASt) : 
   mcall_dict : ∀ items m args kw st, H.mcall (.host (.dict items)) m args kw st = aMcall c (.host (.dict items)) m args kw st
   mcall_flags : ∀ l m args kw st, H.mcall (.host (.flags l)) m args kw st = aMcall c (.host (.flags l)) m args kw st
   mcall_int : ∀ n m args kw st, H.mcall (.int n) m args kw st = aMcall c (.int n) m args kw st
-  mcall_cfgval : ∀ args kw st, H.mcall (.host .self) 0x5f7365745f6174747269627574655f63666776616c args kw st
-      = aMcall c (.host .self) 0x5f7365745f6174747269627574655f63666776616c args kw st
 
 end Ubx.Py
